@@ -340,7 +340,30 @@ def strip_state(d):
     return d
 
 
-def roundtrip(data):
+class Deadline(BaseException):
+    """CPU budget of one case exhausted (a mutant that declares an enormous picture): not a verdict"""
+
+
+def _on_alarm(signum, frame):
+    raise Deadline()
+
+
+def roundtrip(data, budget=3.0):
+    import signal
+
+    old = signal.signal(signal.SIGVTALRM, _on_alarm)
+    signal.setitimer(signal.ITIMER_VIRTUAL, budget)
+    try:
+        return _roundtrip(data)
+    except Deadline:
+        ev = {"ev": "rt", "n": len(data), "parsed": False, "outcome": "timeout", "ser_ok": False, "ser_exc": "", "same_bytes": False, "same_desc": False, "redes_ok": False, "diff_bit": -1, "seqs": []}
+        return ev
+    finally:
+        signal.setitimer(signal.ITIMER_VIRTUAL, 0)
+        signal.signal(signal.SIGVTALRM, old)
+
+
+def _roundtrip(data):
     """-> event dict (without tid)"""
     ev = {"ev": "rt", "n": len(data), "parsed": False, "outcome": "", "ser_ok": False, "ser_exc": "", "same_bytes": False, "same_desc": False, "redes_ok": False, "diff_bit": -1, "seqs": []}
     try:
@@ -616,7 +639,7 @@ def run(ctx):
             "tlc_history_streams": len(gev),
             "mutants": len(mev),
             "parsed_to_completion": parsed,
-            "outcomes": {o: sum(1 for e in events if e["outcome"] == o) for o in ("complete", "eof", "raises")},
+            "outcomes": {o: sum(1 for e in events if e["outcome"] == o) for o in ("complete", "eof", "raises", "timeout")},
             "spec_disagreements": {"predicted_outcome_differs": pred_dis, "logged_clauses": logged},
             "binding_selftest": st,
             "samples": samples,
@@ -626,6 +649,7 @@ def run(ctx):
         "TLC histories are concretised by the harness's own bit writer (2x2 4:4:4 pictures, one slice, depth 0); library-built base streams (up to 4x4, depth 1, 4 slices) are only used as seeds for mutation",
         "descriptions are compared without the computed '_state' copies",
         "exhaustive box: histories of <= 5 data units + end marker over the alphabet of Deser.tla",
+        "a mutant whose round trip needs more than 3 CPU-seconds (e.g. a corrupted dimension declaring an enormous picture) is counted as 'timeout' and is outside the evaluated set",
     ]
 
 
